@@ -14,6 +14,7 @@ import (
 	"net"
 	"regexp"
 	"strings"
+	"sync"
 	"time"
 
 	mail "github.com/wneessen/go-mail"
@@ -64,6 +65,8 @@ func stripTLSRecords(b []byte) (rest []byte, records int) {
 	}
 	return b, records
 }
+
+var fallbackMu sync.Mutex
 
 var b64TokenRe = regexp.MustCompile(`[A-Za-z0-9+/]{8,}={0,2}`)
 
@@ -124,8 +127,20 @@ func runC07Case(r *ev.Run, c c07Case) {
 	if ip == "localhost" {
 		ip = "127.0.0.1"
 	}
-	ln, err := net.Listen("tcp", ip+":0")
+	listenAddr := ip + ":0"
+	if c.Policy == "implicit-fallback" {
+		// WithSSLPort(true): port 465 with fallback to port 25 - both fixed by the API. Nothing listens on
+		// 465, the reference server (speaking implicit TLS) sits on the fallback port.
+		fallbackMu.Lock()
+		defer fallbackMu.Unlock()
+		listenAddr = ip + ":25"
+	}
+	ln, err := net.Listen("tcp", listenAddr)
 	if err != nil {
+		if c.Policy == "implicit-fallback" {
+			r.Count("fallback_port_25_unavailable", 1)
+			return
+		}
 		r.HarnessError("listen: " + err.Error())
 		return
 	}
@@ -138,7 +153,7 @@ func runC07Case(r *ev.Run, c c07Case) {
 			close(sessCh)
 			return
 		}
-		if c.Policy == "implicit" {
+		if c.Policy == "implicit" || c.Policy == "implicit-fallback" {
 			sessCh <- refsmtp.ServeImplicitTLS(conn, cfg, 0)
 		} else {
 			sessCh <- refsmtp.Serve(conn, cfg, 0)
@@ -155,6 +170,9 @@ func runC07Case(r *ev.Run, c c07Case) {
 		opts = append(opts, mail.WithTLSPolicy(mail.NoTLS))
 	case "implicit":
 		opts = append(opts, mail.WithSSL())
+	case "implicit-fallback":
+		opts = opts[1:] // no WithPort: the API derives 465 / fallback 25 only from the default port
+		opts = append(opts, mail.WithSSLPort(true))
 	}
 	if c.AuthType == "CUSTOM" {
 		opts = append(opts, mail.WithSMTPAuthCustom(verifCustomAuth{}))
@@ -189,7 +207,7 @@ func runC07Case(r *ev.Run, c c07Case) {
 	}
 	r.Count("sessions", 1)
 	clear := sess.Clear()
-	if c.Policy == "implicit" {
+	if c.Policy == "implicit" || c.Policy == "implicit-fallback" {
 		clear = nil
 	}
 	cmds, commits, _ := sess.Snapshot()
@@ -223,7 +241,10 @@ func runC07Case(r *ev.Run, c c07Case) {
 		if dialErr == nil && !encrypted {
 			viol("mandatory-delivered-unencrypted:"+cfgKey, "message delivered although no TLS handshake completed", clearLines)
 		}
-	case "implicit":
+	case "implicit", "implicit-fallback":
+		if c.Policy == "implicit-fallback" {
+			r.Count("implicit_sessions_on_fallback_port", 1)
+		}
 		sessRaw := sess.RawBytes
 		if len(sessRaw) > 0 && sessRaw[0] != 0x16 {
 			viol("implicit-first-byte", fmt.Sprintf("with implicit TLS the first byte on the wire is %#x, not a TLS handshake record", sessRaw[0]), ev.Q(sessRaw, 100))
@@ -236,7 +257,7 @@ func runC07Case(r *ev.Run, c c07Case) {
 		}
 	}
 	// after a failed handshake: no application data
-	if c.Handshake != "ok" && (sess.TLSStarted || c.Policy == "implicit") {
+	if c.Handshake != "ok" && (sess.TLSStarted || c.Policy == "implicit" || c.Policy == "implicit-fallback") {
 		if sess.PostTLSAppData > 0 {
 			viol("appdata-after-bad-handshake:"+c.Handshake, fmt.Sprintf("the server decrypted %d bytes of application data although its certificate is %s", sess.PostTLSAppData, c.Handshake), nil)
 		}
@@ -360,6 +381,17 @@ func runC07(r *ev.Run, rep *ev.ReplayDoc) ev.Summary {
 						cases = append(cases, c)
 					}
 				}
+			}
+		}
+	}
+	// implicit TLS with the fixed fallback port (465 -> 25)
+	for hi, host := range []string{"127.0.0.2", "localhost", "127.0.0.1"} {
+		for ai, at := range []string{"NOAUTH", "PLAIN", "LOGIN", "SCRAM-SHA-256", "AUTODISCOVER", "XOAUTH2"} {
+			for _, hs := range []string{"ok", "wrongname", "garbage"} {
+				if !r.Thorough() && (hi+ai)%3 != 0 {
+					continue
+				}
+				cases = append(cases, c07Case{Policy: "implicit-fallback", AuthType: at, Host: host, Reply: "220", Handshake: hs, AuthList: c07AuthLists[1]})
 			}
 		}
 	}
